@@ -404,7 +404,7 @@ def build_variant(repo, with_step):
     annotate_blocks(u, (LFW, 'link'), 'self', [('(if g_pre_newlines { %s + %s } else { %s })' % (GC1, GC2, GC1), '!g_pre_first')] + link_rest)
     u.body_start((LFW, 'link'), '        let ghost g_pre_first = self.is_first; let ghost g_pre_newlines = self.add_newlines;')
     # inside block 0: the newline write comes after the ',' write
-    u.before((LFW, 'link'), r'if self\.add_newlines', '''                let ghost mid: (Sink, bool) = (*self.write, self.error is Some);''')
+    u.before((LFW, 'link'), r'if [^{;]*self\.add_newlines[^{;]*\{', '''                let ghost mid: (Sink, bool) = (*self.write, self.error is Some);''')
     u.at_block_end((LFW, 'link'), r'else if self\.error\.is_none\(\)', '''                proof {
                     let c1 = %s; let c2 = %s;
                     let t0 = snap0.0.text@; let t1 = mid.0.text@; let t2 = self.write.text@;
